@@ -17,7 +17,7 @@ Record cubic := mkcub {
   c_dmin : Q;       (* d_min *)
   c_wtcp : Q;       (* W_tcp *)
   c_k : Q;          (* K *)
-  c_ackcnt : Z      (* ack_cnt *)
+  c_ackcnt : Q      (* ack_cnt (an int in Python; only ever used as ack_cnt / cwnd) *)
 }.
 
 Definition cubic0 : cubic := mkcub 0 0 0 0 0 0 0.
@@ -34,15 +34,15 @@ Inductive cres := CubOk (cs : cubic) (cnt : option Q) | CubicRoot.
    Result cnt = None: slow start, cubic_update() not called, self.cnt unchanged *)
 Definition cubic_ack (cs : cubic) (cw ss rtt now : Q) : cres :=
   (* if self.d_min > 0: self.d_min = min(self.d_min, rtt) else: self.d_min = rtt *)
-  let dmin := if Qltb 0 (c_dmin cs) then (if Qltb rtt (c_dmin cs) then rtt else c_dmin cs) else rtt in
+  let dmin := if Qltb 0 (c_dmin cs) then (if Qle_bool (c_dmin cs) rtt then c_dmin cs else rtt) else rtt in
   if Qle_bool cw ss then CubOk (mkcub (c_wlast cs) (c_epoch cs) (c_origin cs) dmin (c_wtcp cs) (c_k cs) (c_ackcnt cs)) None
   else
     (* cubic_update(current_time) *)
-    let ack1 := c_ackcnt cs + 1 in
+    let ack1 := (c_ackcnt cs + 1)%Q in
     let start :=   (* (epoch_start, K, origin_point, ack_cnt, W_tcp), or the unmodelled cube root *)
       if Qle_bool (c_epoch cs) 0 then
         if Qltb cw (c_wlast cs) then None
-        else Some (now, 0%Q, cw, 1, cw)
+        else Some (now, 0%Q, cw, 1%Q, cw)
       else Some (c_epoch cs, c_k cs, c_origin cs, ack1, c_wtcp cs) in
     match start with
     | None => CubicRoot
@@ -51,7 +51,7 @@ Definition cubic_ack (cs : cubic) (cw ss rtt now : Q) : cres :=
         let target := (origin + cC * ((t - k) * (t - k) * (t - k)))%Q in
         let cnt1 := if Qltb cw target then (cw / (target - cw))%Q else ((100 # 1) * cw)%Q in
         (* cubic_tcp_friendliness() *)
-        let wtcp2 := (wtcp1 + (3 # 1) * cBeta / ((2 # 1) - cBeta) * (inject_Z ack2 / cw))%Q in
+        let wtcp2 := (wtcp1 + (3 # 1) * cBeta / ((2 # 1) - cBeta) * (ack2 / cw))%Q in
         let cnt2 := if Qltb cw wtcp2 then
                       let max_cnt := (cw / (wtcp2 - cw))%Q in
                       if Qltb max_cnt cnt1 then max_cnt else cnt1
@@ -117,7 +117,7 @@ Definition Qclose9 (a b : Q) : bool := Qle_bool (Qabs (a - b)%Q) (tolc * Qabs b)
 
 Definition cubic_close (m o : cubic) : bool :=
   Qeq_bool (c_wlast m) (c_wlast o) && Qeq_bool (c_epoch m) (c_epoch o) && Qclose (c_origin m) (c_origin o) &&
-  Qeq_bool (c_dmin m) (c_dmin o) && Qclose9 (c_wtcp m) (c_wtcp o) && Qeq_bool (c_k m) (c_k o) && (c_ackcnt m =? c_ackcnt o).
+  Qeq_bool (c_dmin m) (c_dmin o) && Qclose9 (c_wtcp m) (c_wtcp o) && Qeq_bool (c_k m) (c_k o) && Qeq_bool (c_ackcnt m) (c_ackcnt o).
 
 (* as state_close, but cnt is compared within a relative 1e-5: C, beta and the cube are exact in the
    model and binary64 in the code, and max_cnt = cwnd / (W_tcp - cwnd) is ill-conditioned in binary64:
